@@ -7,22 +7,88 @@ import Props.Lemmas.FlowOrigin
 
 namespace Pypyr.Flow
 
-/-- the steps a group name denotes in a pipeline (absent group / null sequence = no steps). -/
+/-- the steps a group name denotes in a pipeline (absent group / null sequence = no steps; a string
+    body = its characters, a mapping body = its keys, each taken as a step; a body without a length
+    denotes no steps - `get_pipeline_steps` raises for it, see `runStepGroup_unsized`). -/
 def groupSteps (prog : Program) (pipe g : String) : List StepDef :=
-  match prog.find? pipe with
-  | some pd => match pd.group? g with
-    | some (some ss) => ss
-    | _ => []
-  | none => []
+  match getPipelineSteps prog pipe g with
+  | .ok ss => ss
+  | .error _ => []
 
-theorem runStepGroup_eq (fuel : Nat) (prog : Program) (pipe g : String) (raiseStop : Bool) (s : St) :
+/-- `run_step_group` on a group whose body has a length (every sequence, null, absent, string, mapping). -/
+theorem runStepGroup_eq' (fuel : Nat) (prog : Program) (pipe g : String) (raiseStop : Bool) (s : St)
+    (ss : List StepDef) (hs : getPipelineSteps prog pipe g = .ok ss) :
     runStepGroup (fuel + 1) prog pipe g raiseStop s =
-      (match runSteps fuel prog pipe (groupSteps prog pipe g) s with
+      (match runSteps fuel prog pipe ss s with
        | (s1, .jump c) => runGroups fuel prog pipe c.groups c.success c.failure s1
        | (s1, .stopGroup) => if raiseStop then (s1, .stopGroup) else (s1, .ok)
        | other => other) := by
-  unfold runStepGroup groupSteps
+  unfold runStepGroup
+  rw [hs]
   rfl
+
+/-- `run_step_group` on a group whose body has no `len()` (`on_failure: 42`): `get_pipeline_steps`
+    raises before any step runs - the group's own error, raised where the group is run from. -/
+theorem runStepGroup_unsized (fuel : Nat) (prog : Program) (pipe g : String) (raiseStop : Bool) (s : St)
+    (n m : String) (hs : getPipelineSteps prog pipe g = .error (n, m)) :
+    runStepGroup (fuel + 1) prog pipe g raiseStop s = raiseNew s n m := by
+  unfold runStepGroup
+  rw [hs]
+
+/-- both cases at once, over `groupSteps`. -/
+theorem runStepGroup_eq (fuel : Nat) (prog : Program) (pipe g : String) (raiseStop : Bool) (s : St) :
+    runStepGroup (fuel + 1) prog pipe g raiseStop s =
+      (match getPipelineSteps prog pipe g with
+       | .error (n, m) => raiseNew s n m
+       | .ok _ =>
+         match runSteps fuel prog pipe (groupSteps prog pipe g) s with
+         | (s1, .jump c) => runGroups fuel prog pipe c.groups c.success c.failure s1
+         | (s1, .stopGroup) => if raiseStop then (s1, .stopGroup) else (s1, .ok)
+         | other => other) := by
+  unfold runStepGroup groupSteps
+  cases getPipelineSteps prog pipe g with
+  | error e => rfl
+  | ok ss => rfl
+
+/-- a group that denotes at least one step has a body with a length. -/
+theorem getPipelineSteps_of_groupSteps (prog : Program) (pipe g : String) (ss : List StepDef)
+    (hne : ss ≠ []) (hg : groupSteps prog pipe g = ss) : getPipelineSteps prog pipe g = .ok ss := by
+  unfold groupSteps at hg
+  cases h : getPipelineSteps prog pipe g with
+  | error e => rw [h] at hg; exact absurd hg.symm hne
+  | ok ss' => rw [h] at hg; simp only [] at hg; rw [hg]
+
+/-- `runSteps` on no steps never ends in a signal or an error. -/
+theorem runSteps_nil (fuel : Nat) (prog : Program) (pipe : String) (s : St) :
+    runSteps fuel prog pipe [] s = (s, .ok) ∨ runSteps fuel prog pipe [] s = (s, .outOfFuel) := by
+  cases fuel with
+  | zero => right; unfold runSteps; rfl
+  | succ n => left; unfold runSteps; rfl
+
+/-- if running the steps a group denotes ends in anything but `ok` (or running out of fuel), the group
+    denotes at least one step: its body has a length. -/
+theorem getPipelineSteps_ok_of_run (fuel : Nat) (prog : Program) (pipe g : String) (s s1 : St) (r : Res)
+    (h : runSteps fuel prog pipe (groupSteps prog pipe g) s = (s1, r)) (hok : r ≠ .ok) (hf : r ≠ .outOfFuel) :
+    getPipelineSteps prog pipe g = .ok (groupSteps prog pipe g) := by
+  unfold groupSteps at h ⊢
+  cases hg : getPipelineSteps prog pipe g with
+  | ok ss => rfl
+  | error e =>
+    rw [hg] at h
+    simp only [] at h
+    rcases runSteps_nil fuel prog pipe s with h2 | h2
+    · rw [h2] at h; injection h with _ h; exact absurd h.symm hok
+    · rw [h2] at h; injection h with _ h; exact absurd h.symm hf
+
+/-- `run_step_group` when the steps the group denotes end in something other than `ok`. -/
+theorem runStepGroup_of_run (fuel : Nat) (prog : Program) (pipe g : String) (raiseStop : Bool) (s s1 : St) (r : Res)
+    (h : runSteps fuel prog pipe (groupSteps prog pipe g) s = (s1, r)) (hok : r ≠ .ok) (hf : r ≠ .outOfFuel) :
+    runStepGroup (fuel + 1) prog pipe g raiseStop s =
+      (match (s1, r) with
+       | (s1, .jump c) => runGroups fuel prog pipe c.groups c.success c.failure s1
+       | (s1, .stopGroup) => if raiseStop then (s1, .stopGroup) else (s1, .ok)
+       | other => other) := by
+  rw [runStepGroup_eq' fuel prog pipe g raiseStop s _ (getPipelineSteps_ok_of_run fuel prog pipe g s s1 r h hok hf), h]
 
 /-- the "main phase" of `run_step_groups`: the requested groups in order, then the success group. -/
 def mainPhase (fuel : Nat) (prog : Program) (pipe : String) (groups : List String) (success : Option String) : Body :=
